@@ -53,4 +53,17 @@ def allValidNoRootB (s : Sys) (ops : List Op) : Bool :=
 def allSimpleB (s : Sys) (ops : List Op) : Bool :=
   (ops.foldl (fun (acc : FS × Bool) op => ((kernelOp acc.1 s.k op).1, acc.2 && validOp acc.1 op && simpleKind op)) (s.fs, true)).2
 
+/-- operations that only add entries: `mkdir` and file creation (a `mkdir -p` + populate burst) -/
+def growKind : Op → Bool
+  | .mkdir _ | .create _ => true
+  | _ => false
+
+/-- the created events of a delivered stream: (path, is a directory) -/
+def createdOf (evs : List PEv) : List (P × Bool) :=
+  evs.filterMap (fun e => if e.cls.eventType = "created" then some (e.src, e.cls.isDirectory) else none)
+
+/-- executable twin of the hypothesis of `burst_grow` -/
+def allGrowB (s : Sys) (ops : List Op) : Bool :=
+  (ops.foldl (fun (acc : FS × Bool) op => ((kernelOp acc.1 s.k op).1, acc.2 && validOp acc.1 op && growKind op)) (s.fs, true)).2
+
 end WD.Pipe
